@@ -139,14 +139,32 @@ theorem search_unordered_eq (c : Cat Doc) (a : SearchArgs) (sets : List IdSet)
 
 /-! ## ordered mode -/
 
+/-- membership in the running intersection -/
+def inRes (res : Option IdSet) (d : Int) : Prop :=
+  match res with
+  | none => True
+  | some ds => d ∈ ds
+
+/-- `apply_intersect`'s result: the answer, met with the running intersection if there is one -/
+def meet : Option IdSet → IdSet → IdSet
+  | none, s => s
+  | some ds, s => LSet.inter s ds
+
+theorem mem_meet (res : Option IdSet) (s : IdSet) (d : Int) :
+    d ∈ meet res s ↔ inRes res d ∧ d ∈ s := by
+  cases res with
+  | none => simp [meet, inRes]
+  | some ds => simp only [meet, inRes, LSet.mem_inter]; exact and_comm
+
+theorem nodup_meet (res : Option IdSet) (s : IdSet) (h : s.Nodup) : (meet res s).Nodup := by
+  cases res with
+  | none => exact h
+  | some ds => exact LSet.nodup_inter h ds
+
 /-- the loop of the ordered mode over the answers of the applicable indexes -/
 def orderedFold : List IdSet → Option IdSet → Option (Option IdSet)
   | [], res => some res
-  | s :: rest, res =>
-    let r := match res with
-      | none => s
-      | some ds => LSet.inter s ds
-    if r = [] then none else orderedFold rest (some r)
+  | s :: rest, res => if meet res s = [] then none else orderedFold rest (some (meet res s))
 
 theorem ordered_eq_fold (c : Cat Doc) (terms : List (String × QArg)) :
     ∀ (order : List String) (res : Option IdSet) (sets : List IdSet),
@@ -185,28 +203,17 @@ theorem ordered_eq_fold (c : Cat Doc) (terms : List (String × QArg)) :
           rw [hg] at h1
           (try dsimp only at h1)
           (try dsimp only)
-          unfold Index.applyIntersect
-          rw [h1]
+          have hai : e.ix.applyIntersect q res = .ok (meet res s) := by
+            unfold Index.applyIntersect
+            rw [h1]
+            cases res <;> rfl
+          rw [hai]
+          show (if meet res s = [] then pure none else ordered c terms rest (some (meet res s))) = _
           unfold orderedFold
-          cases res with
-          | none =>
-            show (if s = [] then pure none else ordered c terms rest (some s)) = _
-            by_cases he : s = []
-            · simp [he]; rfl
-            · simp only [he, if_false]
-              exact ih _ _ h2
-          | some ds =>
-            show (if LSet.inter s ds = [] then pure none else ordered c terms rest (some (LSet.inter s ds))) = _
-            by_cases he : LSet.inter s ds = []
-            · simp [he]; rfl
-            · simp only [he, if_false]
-              exact ih _ _ h2
-
-/-- membership in the running intersection -/
-def inRes (res : Option IdSet) (d : Int) : Prop :=
-  match res with
-  | none => True
-  | some ds => d ∈ ds
+          by_cases he : meet res s = []
+          · simp only [he, if_true]; rfl
+          · simp only [he, if_false]
+            exact ih _ _ h2
 
 theorem orderedFold_none (sets : List IdSet) : ∀ res, orderedFold sets res = none →
     ∀ d, ¬ (inRes res d ∧ ∀ s ∈ sets, d ∈ s) := by
@@ -215,16 +222,12 @@ theorem orderedFold_none (sets : List IdSet) : ∀ res, orderedFold sets res = n
   | cons s rest ih =>
     intro res h d
     unfold orderedFold at h
-    (try dsimp only at h)
     rintro ⟨hr, hall⟩
-    have hs := hall s (by simp)
-    have hd : d ∈ (match res with | none => s | some ds => LSet.inter s ds) := by
-      cases res with
-      | none => exact hs
-      | some ds => exact (LSet.mem_inter s ds d).mpr ⟨hs, hr⟩
-    split at h
-    · next he => rw [he] at hd; simp at hd
-    · exact ih _ h d ⟨hd, fun x hx => hall x (List.mem_cons_of_mem _ hx)⟩
+    have hd : d ∈ meet res s := (mem_meet res s d).mpr ⟨hr, hall s (by simp)⟩
+    by_cases he : meet res s = []
+    · rw [he] at hd; simp at hd
+    · simp only [he, if_false] at h
+      exact ih _ h d ⟨hd, fun x hx => hall x (List.mem_cons_of_mem _ hx)⟩
 
 theorem orderedFold_some (sets : List IdSet) : ∀ res I, orderedFold sets res = some (some I) →
     (∀ d, d ∈ I ↔ inRes res d ∧ ∀ s ∈ sets, d ∈ s) ∧ (sets ≠ [] → I ≠ []) := by
@@ -237,24 +240,32 @@ theorem orderedFold_some (sets : List IdSet) : ∀ res I, orderedFold sets res =
   | cons s rest ih =>
     intro res I h
     unfold orderedFold at h
-    (try dsimp only at h)
-    split at h
-    · cases h
-    · next hne =>
+    by_cases he : meet res s = []
+    · simp [he] at h
+    · simp only [he, if_false] at h
       obtain ⟨h1, h2⟩ := ih _ _ h
       refine ⟨?_, ?_⟩
       · intro d
         rw [h1]
-        simp only [inRes, List.mem_cons, forall_eq_or_imp]
-        cases res with
-        | none => simp
-        | some ds => simp only [LSet.mem_inter]; tauto
+        simp only [inRes, List.mem_cons, forall_eq_or_imp, mem_meet]
+        exact and_assoc
       · intro _
         cases rest with
         | nil =>
           simp only [orderedFold, Option.some.injEq] at h
-          rw [← h]; exact hne
+          rw [← h]; exact he
         | cons x xs => exact h2 (by simp)
+
+theorem orderedFold_some_ne (l : List IdSet) : ∀ r : IdSet, orderedFold l (some r) ≠ some none := by
+  induction l with
+  | nil => intro r h; simp [orderedFold] at h
+  | cons x xs ih =>
+    intro r h
+    unfold orderedFold at h
+    by_cases he : meet (some r) x = []
+    · simp [he] at h
+    · simp only [he, if_false] at h
+      exact ih _ h
 
 theorem orderedFold_some_none (sets : List IdSet) : ∀ res, orderedFold sets res = some none →
     sets = [] ∧ res = none := by
@@ -263,23 +274,10 @@ theorem orderedFold_some_none (sets : List IdSet) : ∀ res, orderedFold sets re
   | cons s rest =>
     intro res h
     unfold orderedFold at h
-    (try dsimp only at h)
-    split at h
-    · cases h
-    · exfalso
-      -- from the second step on the running result is `some _`
-      have key : ∀ (l : List IdSet) (r : IdSet), orderedFold l (some r) ≠ some none := by
-        intro l
-        induction l with
-        | nil => intro r h; simp [orderedFold] at h
-        | cons x xs ih =>
-          intro r h
-          unfold orderedFold at h
-          (try dsimp only at h)
-          split at h
-          · cases h
-          · exact ih _ h
-      exact key _ _ h
+    by_cases he : meet res s = []
+    · simp [he] at h
+    · simp only [he, if_false] at h
+      exact absurd h (orderedFold_some_ne _ _)
 
 theorem orderedFold_nodup (sets : List IdSet) (hn : ∀ s ∈ sets, s.Nodup) :
     ∀ res I, (∀ ds, res = some ds → ds.Nodup) → orderedFold sets res = some (some I) → I.Nodup := by
@@ -291,16 +289,14 @@ theorem orderedFold_nodup (sets : List IdSet) (hn : ∀ s ∈ sets, s.Nodup) :
   | cons s rest ih =>
     intro res I hres h
     unfold orderedFold at h
-    (try dsimp only at h)
-    split at h
-    · cases h
-    · refine ih (fun x hx => hn x (List.mem_cons_of_mem _ hx)) _ I ?_ h
+    by_cases he : meet res s = []
+    · simp [he] at h
+    · simp only [he, if_false] at h
+      refine ih (fun x hx => hn x (List.mem_cons_of_mem _ hx)) _ I ?_ h
       intro ds hds
       simp only [Option.some.injEq] at hds
       subst hds
-      cases res with
-      | none => exact hn s (by simp)
-      | some r => exact LSet.nodup_inter (hn s (by simp)) r
+      exact nodup_meet res s (hn s (by simp))
 
 /-- the answer of the ordered loop as an id list -/
 def orderedAnswer (sets : List IdSet) : IdSet :=
@@ -388,35 +384,50 @@ theorem fieldSort_ok (s : Field.State Int) (I : IdSet) (rev : Bool) (limit : Opt
     (hl : ∀ l, limit = some l → 1 ≤ l) (hne : I = [] ∨ s.numDocs ≠ 0) :
     ∃ l r, fieldSort s I rev limit = .ok (l, r) ∧ (∀ d ∈ l, d ∈ I) ∧
       (∀ n, limit = some n → l.length ≤ n.toNat) := by
-  unfold fieldSort
-  have h1 : (match limit with | some l => decide (l < 1) | none => false) = false := by
-    cases limit with
-    | none => rfl
-    | some l => have := hl l rfl; simp; omega
-  simp only [h1, Bool.false_eq_true, if_false]
+  have hsub : ∀ x, x ∈ (Sort.isort (fun a b => if rev then decide ((AMap.get s.rev b).getD 0 ≤ (AMap.get s.rev a).getD 0)
+        else decide ((AMap.get s.rev a).getD 0 ≤ (AMap.get s.rev b).getD 0))
+      (Sort.isort (fun a b => decide (a ≤ b)) (I.filter (fun d => (AMap.get s.rev d).isSome)))) → x ∈ I := by
+    intro x hx
+    rw [Sort.mem_isort, Sort.mem_isort] at hx
+    exact (List.mem_filter.mp hx).1
   by_cases hI : I = []
   · subst hI
-    exact ⟨[], false, by simp, by simp, by simp⟩
+    refine ⟨[], false, ?_, by simp, by simp⟩
+    cases limit with
+    | none => simp [fieldSort]
+    | some l =>
+      have := hl l rfl
+      have h1 : ¬ l < 1 := by omega
+      simp [fieldSort, h1]
   · have hnd : s.numDocs ≠ 0 := by
       rcases hne with h | h
       · exact absurd h hI
       · exact h
-    simp only [hI, hnd, if_false]
-    refine ⟨_, _, rfl, ?_, ?_⟩
-    · intro d hd
-      have hsub : ∀ x, x ∈ (Sort.isort (fun a b => if rev then decide ((AMap.get s.rev b).getD 0 ≤ (AMap.get s.rev a).getD 0)
-            else decide ((AMap.get s.rev a).getD 0 ≤ (AMap.get s.rev b).getD 0))
-          (Sort.isort (fun a b => decide (a ≤ b)) (I.filter (fun d => (AMap.get s.rev d).isSome)))) → x ∈ I := by
-        intro x hx
-        rw [Sort.mem_isort, Sort.mem_isort] at hx
-        exact (List.mem_filter.mp hx).1
-      cases limit with
-      | none => exact hsub d hd
-      | some l => exact hsub d (List.mem_of_mem_take hd)
-    · intro n hn
-      subst hn
-      simp only [List.length_take]
-      omega
+    cases limit with
+    | none =>
+      cases hfs : fieldSort s I rev none with
+      | error e => simp only [fieldSort, Bool.false_eq_true, if_false, hI, hnd] at hfs; cases hfs
+      | ok p =>
+        simp only [fieldSort, Bool.false_eq_true, if_false, hI, hnd] at hfs
+        have := Except.ok.inj hfs
+        subst this
+        exact ⟨_, _, rfl, fun d hd => hsub d hd, fun n hn => by cases hn⟩
+    | some l =>
+      have := hl l rfl
+      have h1 : ¬ l < 1 := by omega
+      cases hfs : fieldSort s I rev (some l) with
+      | error e =>
+        simp only [fieldSort, h1, decide_false, Bool.false_eq_true, if_false, hI, hnd] at hfs; cases hfs
+      | ok p =>
+        simp only [fieldSort, h1, decide_false, Bool.false_eq_true, if_false, hI, hnd] at hfs
+        have := Except.ok.inj hfs
+        subst this
+        refine ⟨_, _, rfl, fun d hd => hsub d (List.mem_of_mem_take hd), ?_⟩
+        intro n hn
+        simp only [Option.some.injEq] at hn
+        subst hn
+        simp only [List.length_take]
+        omega
 
 /-- `num` and the shape of the result under a sort index that is a field index -/
 theorem sort_field (c : Cat Doc) (I : IdSet) (a : SortArgs) (name : String) (e : Entry Doc)
@@ -426,17 +437,7 @@ theorem sort_field (c : Cat Doc) (I : IdSet) (a : SortArgs) (name : String) (e :
       (∀ n, a.limit = some n → l.length ≤ n.toNat) := by
   obtain ⟨l, r, h1, h2, h3⟩ := fieldSort_ok s I a.reverse a.limit hl hne
   refine ⟨l, r, ?_, h2, h3⟩
-  unfold sort
-  rw [hs]
-  (try dsimp only)
-  rw [hg]
-  (try dsimp only)
-  unfold Index.sort
-  rw [hix]
-  (try dsimp only)
-  rw [h1]
-  unfold Spec.num
-  rw [hs]
+  simp only [sort, hs, hg, Index.sort, hix, h1, Spec.num]
   cases hlim : a.limit with
   | none => rfl
   | some n =>
